@@ -158,13 +158,32 @@ def run_sort(acc, inp, es, ss, ms, case, indexed=False):
     nontrivial = status == "ok" and any(exp[t] != inp[t] for t in SM.TABLES)
     acc.ev(1, nontrivial)
     tc = SM.to_tables(inp)
-    if indexed:
+    if indexed == "stale":
+        # an index built for ANOTHER order of the same number of edge rows (has_index() only compares
+        # counts): sort must not let it survive as the index of the rows it leaves behind
+        tc = SM.to_tables(dict(SM.ref_sort(inp, 0, False)))
+        tc.build_index()
+        tc.edges.replace_with(SM.to_tables(inp).edges)
+    elif indexed:
         tc.build_index()
     raised = None
     try:
         tc.sort(es, site_start=ss, mutation_start=ms)
     except Exception as e:  # noqa
         raised = e
+    if raised is None and tc.has_index():
+        # whatever index the sorted tables carry must be THE index of their edge rows
+        try:
+            fresh = tc.copy()
+            fresh.drop_index()
+            fresh.build_index()
+            same = (tc.indexes.edge_insertion_order.tolist() == fresh.indexes.edge_insertion_order.tolist()
+                    and tc.indexes.edge_removal_order.tolist() == fresh.indexes.edge_removal_order.tolist())
+        except Exception:  # noqa: rows that cannot be indexed at all (bad references) are not this check's business
+            same = True
+        if not same:
+            acc.fail("sort:stale_index_kept", f"after sort(edge_start={es}, site_start={ss}, mutation_start={ms}) the tables "
+                     f"carry an index that is not the index of their edge rows (indexed={indexed})", case)
     probs = []
     got = SM.from_tables(tc, problems=probs)
     for t, msg in probs:
@@ -230,6 +249,8 @@ def sortE_variants(base, bd):
 def sortE_run(acc, base, bd, var, kind="sortE"):
     inp = SM.permute(base, "edges", var["pe"])
     run_sort(acc, inp, var["es"], 0, 0, {"kind": kind, "base": bd, "var": var})
+    if var["es"] in (0, len(inp["edges"])):
+        run_sort(acc, inp, var["es"], 0, 0, {"kind": kind, "base": bd, "var": var, "indexed": "stale"}, indexed="stale")
 
 
 # ======================================================================================
